@@ -11,6 +11,7 @@ import numpy as np
 from rv import core, zoo, monitors
 
 LEVEL = 'exploration'
+LEVEL_TEXT = "Contracts on the three gates with independently computed predicates (extended precision for the ellipse, an epsilon band excluded from the verdict, exact axis vertices that must be kept), gated == data[mask] with metadata, short == long form, refusals; also in situ in the Excel workflow and under the repository's gate tests. Exploration."
 TECHNIQUE = 'runtime contracts on the three gates with independently computed predicates (extended precision for the ellipse)'
 RULE = ('arrays and loaded samples (0..N events, integer and float) with values placed on and next to thresholds x '
         'channel forms x parameters (counts incl. negative, 0, N, N+1; thresholds explicit/partial/default; ellipse '
